@@ -6,6 +6,7 @@ every block size and merge limit.
 -/
 import PrecondVerif.Lemmas.Shapes
 import PrecondVerif.Lemmas.Partition
+import PrecondVerif.Lemmas.Blockify
 
 namespace PrecondVerif.C06
 open PrecondVerif.Shapes
@@ -105,6 +106,17 @@ theorem reshape_roundtrip {α} (t : Tensor α) (s : List Nat) (idx : List Nat)
   simp only [Tensor.reshape]
   have hlt : ravel t.shape idx < prod s := hp ▸ ravel_lt t.shape idx hi
   rw [ravel_unravel s _ hlt, unravel_ravel t.shape idx hi]
+
+/-- Tearfree `_deblockify ∘ _blockify` is the identity — PARTIAL: proved for parameters with at
+most one large axis (both functions are then pure reshapes), for every rank and block size.
+Missing: the two-large-axes case (reshape ∘ transpose ∘ reshape); there the inverse-permutation
+algebra is not proved and the round trip is established only by the exact correspondence run on
+enumerated shapes. -/
+theorem deblockify_blockify_id_partial {α} (t : Tensor α) (b : Nat)
+    (hle : (blocksMetadata b t.shape).largeAxes.length ≤ 1)
+    (hdiv : ∀ a ∈ (blocksMetadata b t.shape).largeAxes, b ∣ t.shape.getD a 0) :
+    (deblockify (blockify t (blocksMetadata b t.shape)) (blocksMetadata b t.shape)).Eqv t :=
+  deblockify_blockify_le_one t b hle hdiv
 
 /-- Tearfree padding: never shrinks, pads to a multiple of the block, by less than a block,
 and leaves small dimensions alone. -/
@@ -218,5 +230,6 @@ example : (∀ d ∈ [3, 5], 1 ≤ d) ∧ inBounds [3, 5] [2, 4] := by simp [inB
 example : padDim 5 2 = 6 ∧ padDim 1 2 = 1 := by decide
 example : shouldCompress 1 4 = true ∧ precondDim 1 4 = 3 := by decide
 example : precondsForGrad .input 2 3 = [some 3, none] := by decide
+example : (blocksMetadata 2 [4, 3]).largeAxes = [0, 1] ∧ (blocksMetadata 3 [6, 2]).largeAxes = [0] ∧ 3 ∣ 6 := by decide
 
 end PrecondVerif.C06
